@@ -24,7 +24,8 @@ pub struct C10;
 
 #[derive(Debug, Clone)]
 pub struct Case {
-    pub files: Vec<(CFile, bool)>,
+    /// (file, framed with the iterator encoder, corrupt one payload byte at this fraction)
+    pub files: Vec<(CFile, bool, Option<u16>)>,
     pub noises: Vec<Noise>,
     pub source: u8,
     pub buffer: u8,
@@ -215,7 +216,15 @@ enum Expect {
     End,
 }
 
-fn run_script<R, E, B>(mut reader: SmlReader<R, B>, i: &Input, expected_files: &[RFile], exp: &[Expect], who: &str) -> Result<(), Fail>
+/// Expected content of a payload: the independent reading, or (for a payload that is not a
+/// valid SML file) the events up to the rejection.
+#[derive(Debug, Clone)]
+pub enum Content {
+    Valid(RFile),
+    Invalid(Vec<REvent>),
+}
+
+fn run_script<R, E, B>(mut reader: SmlReader<R, B>, i: &Input, expected_files: &[Content], exp: &[Expect], who: &str) -> Result<(), Fail>
 where
     R: ByteSource<ReadError = E>,
     E: ByteSourceErr + core::fmt::Debug,
@@ -229,10 +238,14 @@ where
         log.push(format!("{}{}::<{}> -> {}", if use_next { "next" } else { "read" }, if target >= 3 { "_nb" } else { "" }, ["DecodedBytes", "File", "Parser"][target as usize % 3], got.short()));
         let ok = match e {
             Expect::Discard(n) => got == Item::DecodeErr(DecodeErr::DiscardedBytes(*n)),
-            Expect::File(k) => match target % 3 {
-                0 => got == Item::Bytes(i.files[*k].0.clone()),
-                1 => got == Item::File(expected_files[*k].clone()),
-                _ => got == Item::Events(events_of(&expected_files[*k]), None),
+            Expect::File(k) => match (target % 3, &expected_files[*k]) {
+                (0, _) => got == Item::Bytes(i.files[*k].0.clone()),
+                (1, Content::Valid(f)) => got == Item::File(f.clone()),
+                (_, Content::Valid(f)) => got == Item::Events(events_of(f), None),
+                // a payload that is not a valid SML file: a parse error (kind not compared), with
+                // the events before it intact
+                (1, Content::Invalid(_)) => matches!(got, Item::ParseErr(_)),
+                (_, Content::Invalid(ev)) => matches!(&got, Item::Events(e, Some(_)) if e == ev),
             },
             Expect::TailEof(n) => got == Item::Io(true, *n),
             Expect::End => {
@@ -271,7 +284,7 @@ fn io_script(stream: &[u8], interrupts: &[u16]) -> Vec<crate::drive::Step> {
     crate::gen::faults::build_script(stream, &faults)
 }
 
-fn with_buffer<K: BufKind>(i: &Input, stream: &[u8], files: &[RFile], exp: &[Expect]) -> Result<(), Fail> {
+fn with_buffer<K: BufKind>(i: &Input, stream: &[u8], files: &[Content], exp: &[Expect]) -> Result<(), Fail> {
     let b = if K::CAP == usize::MAX { "Vec".to_string() } else { format!("ArrayBuf<{}>", K::CAP) };
     match i.source {
         0 => run_script(K::builder().from_slice(stream), i, files, exp, &format!("SmlReader<{b}>::from_slice")),
@@ -284,11 +297,12 @@ pub fn eval_input(i: &Input, obs: &mut Obs) -> Result<(), Fail> {
     // expected content from the independent reader (the generator only produces valid files)
     let mut files = Vec::new();
     for (f, _) in &i.files {
-        match read_file(f) {
-            Ok(r) => files.push(r),
-            Err(_) => {
-                obs.class("precondition-miss:file-not-valid");
-                return Ok(());
+        let r = read_events(f, true);
+        match r.reject {
+            None => files.push(Content::Valid(assemble(&r.events).expect("assembles"))),
+            Some(_) => {
+                obs.class("payload:not-a-valid-sml-file");
+                files.push(Content::Invalid(r.events));
             }
         }
     }
@@ -342,7 +356,11 @@ pub fn eval_input(i: &Input, obs: &mut Obs) -> Result<(), Fail> {
                 let g = it.next();
                 ensure!(g == Some(&Ok(i.files[*k].0.clone())), "hand-composition-differs", "transport::decode over the same bytes yields {:?} where file #{} is expected", g.map(|r| r.as_ref().map(|b| hex_short(b, 24))), k);
                 let parsed = sml_rs::parser::complete::parse(&i.files[*k].0).map(|f| rfile_of(&f));
-                ensure!(parsed.as_ref().ok() == Some(&files[*k]), "hand-composition-differs", "complete::parse of file #{} yields {:?}", k, parsed);
+                let same = match &files[*k] {
+                    Content::Valid(f) => parsed.as_ref().ok() == Some(f),
+                    Content::Invalid(_) => parsed.is_err(),
+                };
+                ensure!(same, "hand-composition-differs", "complete::parse of file #{} yields {:?}", k, parsed);
             }
             Expect::End => {
                 ensure!(it.next().is_none(), "hand-composition-differs", "transport::decode yields more results than expected");
@@ -373,7 +391,7 @@ pub fn eval_input(i: &Input, obs: &mut Obs) -> Result<(), Fail> {
 
 impl Prop for C10 {
     const ID: &'static str = "C10";
-    const RULE: &'static str = "k in 0..5 (thorough 0..9) G4 files, each framed by encode or encode_streaming, separated and surrounded by G3 noise (possibly empty; suffix classes: 0x1b runs, partial start sequences, end look-alikes), read through SmlReader over {slice, iterator, io::Read (a one-byte-at-a-time reader that also reports ErrorKind::Interrupted at 0..3 positions, which std::io consumers must retry)} with {default 8 KiB, ArrayBuf<N >= max|F|>, Vec} buffers under a per-call script choosing read vs next, blocking vs non-blocking API (read_nb / next_nb) and the target type (DecodedBytes, File, Parser). Oracle: constructed expectation - for each i DiscardedBytes(|g_i|) if the noise is non-empty, then file i in the requested representation (bytes == payload, File == independent reading R3, Parser events == R3 events); after the last frame IoErr(Eof, |g_k|) once if |g_k| > 0, then next -> None / read -> IoErr(Eof, 0) on three further calls; and transport::decode + complete::parse composed by hand give the same. Non-trivial: >= 2 files with at least one non-empty noise, or >= 2 different target types in one script. Distinct = distinct inputs.";
+    const RULE: &'static str = "k in 0..5 (thorough 0..9) G4 files, each framed by encode or encode_streaming, separated and surrounded by G3 noise (possibly empty; suffix classes: 0x1b runs, partial start sequences, end look-alikes), read through SmlReader over {slice, iterator, io::Read (a one-byte-at-a-time reader that also reports ErrorKind::Interrupted at 0..3 positions, which std::io consumers must retry)} with {default 8 KiB, ArrayBuf<N >= max|F|>, Vec} buffers under a per-call script choosing read vs next, blocking vs non-blocking API (read_nb / next_nb) and the target type (DecodedBytes, File, Parser). One payload in ten has a flipped bit (then File must be a parse error and Parser must yield the events before the rejection, then an error). Oracle: constructed expectation - for each i DiscardedBytes(|g_i|) if the noise is non-empty, then file i in the requested representation (bytes == payload, File == independent reading R3, Parser events == R3 events); after the last frame IoErr(Eof, |g_k|) once if |g_k| > 0, then next -> None / read -> IoErr(Eof, 0) on three further calls; and transport::decode + complete::parse composed by hand give the same. Non-trivial: >= 2 files with at least one non-empty noise, or >= 2 different target types in one script. Distinct = distinct inputs.";
     type Case = Case;
     type Input = Input;
 
@@ -384,14 +402,25 @@ impl Prop for C10 {
     fn strategy(tier: Tier) -> BoxedStrategy<Case> {
         let maxk = tier.pick(5usize, 9);
         (0..maxk)
-            .prop_flat_map(|k| (vec((cfile(false), any::<bool>()), k), vec(prop_oneof![2 => Just(Noise { toks: vec![], suffix: crate::gen::stream::NSuffix::None }), 3 => noise(300, true)], k + 1), 0u8..3, 0u8..3, vec((any::<bool>(), 0u8..6), 1..8), vec(any::<u16>(), 0..4)))
+            .prop_flat_map(|k| (vec((cfile(false), any::<bool>(), prop::option::weighted(0.1, any::<u16>())), k), vec(prop_oneof![2 => Just(Noise { toks: vec![], suffix: crate::gen::stream::NSuffix::None }), 3 => noise(300, true)], k + 1), 0u8..3, 0u8..3, vec((any::<bool>(), 0u8..6), 1..8), vec(any::<u16>(), 0..4)))
             .prop_map(|(files, noises, source, buffer, script, interrupts)| Case { files, noises, source, buffer, script, interrupts })
             .boxed()
     }
 
     fn lower(c: &Case) -> Input {
         Input {
-            files: c.files.iter().map(|(f, s)| (write(f).bytes, *s)).collect(),
+            files: c
+                .files
+                .iter()
+                .map(|(f, s, corrupt)| {
+                    let mut b = write(f).bytes;
+                    if let (Some(x), false) = (corrupt, b.is_empty()) {
+                        let k = ((*x as usize) * b.len()) >> 16;
+                        b[k] ^= 0x10;
+                    }
+                    (b, *s)
+                })
+                .collect(),
             noises: c.noises.iter().map(|n| n.bytes()).collect(),
             source: c.source,
             buffer: c.buffer,
